@@ -1,53 +1,493 @@
-//! experiment: does a stale `para` survive into the next occupant of a pooled stack?
-use mayv::*;
+//! C15 scenario: a freshly spawned coroutine never inherits anything from the previous occupant of its
+//! pooled stack.  Pool capacity 1 and strictly sequential spawns, so every coroutine runs on the stack the
+//! previous one has just given back (checked through the address of a stack variable).
+//!
+//! Each round: a previous occupant A with a fate (MAYV_PREV, `mix` = drawn per round)
+//!   fin      uses locals, sleeps, a park that times out (consumed), returns
+//!   tmo      the LAST thing it does is a park that times out
+//!   panic    panics in its body
+//!   cpark    cancelled while (or just before) it is parked
+//!   race     parked with a timeout and cancelled exactly when its timer fires
+//!   cshort   cancelled while it runs; its next blocking call (sleep / yield_now / park / recv) takes the short-cut
+//!   waitio   cancelled while it runs, then `wait_io` (absorbs the cancel), returns normally   [finding F30]
+//!   cwaitio  cancelled while it is blocked in `wait_io`
+//!   iotmo    a socket read that times out
+//!   cio      cancelled while it is blocked in a socket read
+//!   cdrop    cancelled while parked; a guard on its stack makes blocking calls while the Cancel unwinds
+//! then the new occupant B makes its FIRST blocking call (MAYV_FIRST, `mix` = drawn per round)
+//!   park     Blocker::park(10 s), unparked by a thread after 1 ms
+//!   sleep    sleep(2 ms)
+//!   recv     mpsc recv, a thread sends after 1 ms          recvt  recv_timeout(10 s), likewise
+//!   sem      Semphore::wait_timeout(10 s), posted after 1 ms
+//!   io       UDP recv with a read timeout of 10 s, a datagram is sent after 1 ms
+//!
+//! Oracles on the implementation:
+//!  * B's first blocking call is neither Timeout nor Canceled nor early: it returns the event, not before 1 ms
+//!    (2 ms for sleep) of virtual time, and B ends normally (no stray Cancel panic: join is Ok);
+//!  * B's coroutine-local values are fresh (the initialiser runs on first access, initial value), survive its
+//!    blocking call (and whatever migration came with it), and are invisible to A / to the main thread;
+//!  * every value created by A and by B is dropped exactly once, after the coroutine ended, also when it
+//!    panicked or was cancelled;
+//!  * the main thread's fallback values are untouched by all of this and never dropped;
+//!  * A ends the way its fate says (normal / panic payload / Cancel), nobody hangs.
 use may::io::WaitIo;
-use std::sync::atomic::{AtomicUsize, Ordering::SeqCst};
-use std::sync::Arc;
+use mayv::*;
+use std::cell::Cell;
+use std::sync::atomic::{AtomicU64, AtomicUsize, Ordering::SeqCst};
+use std::sync::{Arc, Mutex};
 use std::time::Duration;
 
+fn envs(k: &str, d: &str) -> String {
+    std::env::var(k).unwrap_or_else(|_| d.into())
+}
+fn envn(k: &str, d: u64) -> u64 {
+    std::env::var(k).ok().and_then(|s| s.parse().ok()).unwrap_or(d)
+}
+
+const NK: usize = 2;
+const MAXO: usize = 64;
+const MAIN: usize = MAXO - 1;
+#[allow(clippy::declare_interior_mutable_const)]
+const Z: AtomicUsize = AtomicUsize::new(0);
+#[allow(clippy::declare_interior_mutable_const)]
+const ZR: [AtomicUsize; NK] = [Z; NK];
+static INITS: [[AtomicUsize; NK]; MAXO] = [ZR; MAXO];
+static DROPS: [[AtomicUsize; NK]; MAXO] = [ZR; MAXO];
+static CUR_OWNER: AtomicUsize = AtomicUsize::new(0);
+/// set while an owner's coroutine is still inside its body (a drop before the end is an error)
+static ALIVE: [AtomicUsize; MAXO] = [Z; MAXO];
+
+struct Val {
+    owner: usize,
+    key: usize,
+    cell: Cell<i64>,
+}
+impl Val {
+    fn new(key: usize) -> Val {
+        let owner = CUR_OWNER.load(SeqCst);
+        INITS[owner][key].fetch_add(1, SeqCst);
+        Val { owner, key, cell: Cell::new(100 * (key as i64 + 1)) }
+    }
+}
+impl Drop for Val {
+    fn drop(&mut self) {
+        if ALIVE[self.owner].load(SeqCst) != 0 {
+            mayv::ctx().fail(format!("a local value of owner {} was dropped before its coroutine ended", self.owner));
+        }
+        DROPS[self.owner][self.key].fetch_add(1, SeqCst);
+    }
+}
+may::coroutine_local!(static K0: Val = Val::new(0));
+may::coroutine_local!(static K1: Val = Val::new(1));
+
+/// first accesses of a new owner: the initialiser must run, the initial values must be seen; then store
+fn touch_locals(owner: usize, who: &str) {
+    let c = mayv::ctx();
+    CUR_OWNER.store(owner, SeqCst);
+    for k in 0..NK {
+        let before = INITS[owner][k].load(SeqCst);
+        let (v, o) = if k == 0 { K0.with(|x| (x.cell.get(), x.owner)) } else { K1.with(|x| (x.cell.get(), x.owner)) };
+        if INITS[owner][k].load(SeqCst) != before + 1 {
+            c.fail(format!("{who}: first access to key {k} did not run the initialiser: the value of an earlier coroutine is visible ({v}, created by owner {o})"));
+        }
+        if v != 100 * (k as i64 + 1) || o != owner {
+            c.fail(format!("{who}: first access to key {k} sees {v} created by owner {o}"));
+        }
+    }
+    K1.with(|x| x.cell.set(7 * owner as i64 + 1));
+}
+/// later accesses: still this owner's values, no second initialisation
+fn check_locals_kept(owner: usize, who: &str) {
+    let c = mayv::ctx();
+    CUR_OWNER.store(owner, SeqCst);
+    let (v0, o0) = K0.with(|x| (x.cell.get(), x.owner));
+    let (v1, o1) = K1.with(|x| (x.cell.get(), x.owner));
+    if (v0, o0, v1, o1) != (100, owner, 7 * owner as i64 + 1, owner) {
+        c.fail(format!("{who}: locals changed across a blocking call: key0 = {v0} (owner {o0}), key1 = {v1} (owner {o1})"));
+    }
+    for k in 0..NK {
+        if INITS[owner][k].load(SeqCst) != 1 {
+            c.fail(format!("{who}: initialiser of key {k} ran {} times", INITS[owner][k].load(SeqCst)));
+        }
+    }
+}
+/// after the coroutine of `owner` was joined: its values are dropped exactly once (drop_coroutine runs after the join is triggered)
+fn wait_dropped(owner: usize, who: &str) {
+    let c = mayv::ctx();
+    let mut spins = 0;
+    while (0..NK).any(|k| DROPS[owner][k].load(SeqCst) < INITS[owner][k].load(SeqCst)) && spins < 3000 {
+        c.yield_now();
+        spins += 1;
+    }
+    for k in 0..NK {
+        let (i, d) = (INITS[owner][k].load(SeqCst), DROPS[owner][k].load(SeqCst));
+        if i != d {
+            c.fail(format!("{who}: {i} values of key {k} created, {d} dropped after the coroutine ended"));
+        }
+    }
+}
+
+struct Round {
+    stage: AtomicUsize,
+    t_park: AtomicU64,
+    stack: AtomicUsize,
+    blocker: Mutex<Option<Arc<may::sync::Blocker>>>,
+}
+
+/// mark the owner's body as left, also when a panic / cancel unwinds it
+struct AliveGuard(usize);
+impl Drop for AliveGuard {
+    fn drop(&mut self) {
+        ALIVE[self.0].store(0, SeqCst);
+    }
+}
+/// a guard whose Drop makes blocking calls (they run while a Cancel panic unwinds the stack)
+struct BlockingDrop;
+impl Drop for BlockingDrop {
+    fn drop(&mut self) {
+        may::coroutine::sleep(Duration::from_micros(100));
+        may::coroutine::yield_now();
+        let b = may::sync::Blocker::current();
+        let _ = b.park(Some(Duration::from_micros(200)));
+    }
+}
+
+fn note_stack(r: &Round) {
+    let x = 0u8;
+    r.stack.store(&x as *const u8 as usize, SeqCst);
+}
+
+fn spin_until(r: &Round, v: usize) {
+    while r.stage.load(SeqCst) != v {
+        mayv::ctx().yield_now();
+        mayv::ctx().point();
+    }
+}
+
+#[derive(Clone, Copy, PartialEq, Debug)]
+enum Exp {
+    Ok,
+    Panic,
+    Cancel,
+    Any,
+}
+
 fn main() {
-    let cfg = Config::from_env();
+    let mut cfg = Config::from_env();
+    cfg.poll_io = true;
+    let prev = envs("MAYV_PREV", "mix");
+    let first = envs("MAYV_FIRST", "mix");
+    let rounds = envn("MAYV_ROUNDS", 3) as usize;
     run(cfg, move |ctx| {
         may::config().set_pool_capacity(1);
-        let flag = Arc::new(AtomicUsize::new(0));
-        let f2 = flag.clone();
-        let sock = may::net::UdpSocket::bind("127.0.0.1:0").unwrap();
-        let a = unsafe {
-            may::coroutine::spawn(move || {
-                let x = 0u8;
-                println!("A stack {:p}", &x);
-                let r0 = sock.wait_io();
-                println!("A first wait_io returned {r0}");
-                f2.store(1, SeqCst);
-                while f2.load(SeqCst) != 2 {
-                    mayv::ctx().yield_now();
-                    mayv::ctx().point();
+        let fates = ["fin", "tmo", "panic", "cpark", "race", "cshort", "waitio", "cwaitio", "iotmo", "cio", "cdrop"];
+        let firsts = ["park", "sleep", "recv", "recvt", "sem", "io"];
+        // the main thread's fallback values
+        touch_locals(MAIN, "main thread");
+        let mut owner = 0usize;
+        let mut last_stack = 0usize;
+        let mut reuse = 0;
+        for round in 0..rounds {
+            let fate: &'static str = if prev == "mix" { fates[(ctx.rand() % fates.len() as u64) as usize] } else { fates.iter().copied().find(|f| *f == prev).expect("MAYV_PREV") };
+            let fst: &'static str = if first == "mix" { firsts[(ctx.rand() % firsts.len() as u64) as usize] } else { firsts.iter().copied().find(|f| *f == first).expect("MAYV_FIRST") };
+            let sub = ctx.rand();
+
+            // ---------------------------------------------------------------- previous occupant A
+            let a = owner;
+            owner += 1;
+            let r = Arc::new(Round { stage: AtomicUsize::new(0), t_park: AtomicU64::new(0), stack: AtomicUsize::new(0), blocker: Mutex::new(None) });
+            let r2 = r.clone();
+            let sa = may::net::UdpSocket::bind("127.0.0.1:0").expect("bind");
+            let sb = may::net::UdpSocket::bind("127.0.0.1:0").expect("bind");
+            sa.connect(sb.local_addr().unwrap()).unwrap();
+            sb.connect(sa.local_addr().unwrap()).unwrap();
+            let (_tx_a, rx_a) = may::sync::mpsc::channel::<u32>();
+            ALIVE[a].store(1, SeqCst);
+            let ha = unsafe {
+                may::coroutine::spawn(move || {
+                    let r = r2;
+                    let _alive = AliveGuard(a);
+                    note_stack(&r);
+                    let who = format!("previous occupant {a} ({fate})");
+                    touch_locals(a, &who);
+                    let c = mayv::ctx();
+                    match fate {
+                        "fin" => {
+                            may::coroutine::sleep(Duration::from_micros(500));
+                            let b = may::sync::Blocker::current();
+                            let t0 = c.now();
+                            match b.park(Some(Duration::from_micros(300))) {
+                                Err(may::coroutine::ParkError::Timeout) if c.now() >= t0 + 300_000 => {}
+                                x => c.fail(format!("{who}: park(300us) that nobody unparks returned {x:?} after {} ns", c.now() - t0)),
+                            }
+                            may::coroutine::yield_now();
+                            check_locals_kept(a, &who);
+                        }
+                        "tmo" => {
+                            if sub & 1 == 0 {
+                                let b = may::sync::Blocker::current();
+                                let _ = b.park(Some(Duration::from_micros(500)));
+                            } else {
+                                may::coroutine::sleep(Duration::from_micros(500));
+                            }
+                        }
+                        "panic" => {
+                            may::coroutine::sleep(Duration::from_micros(200));
+                            panic!("boom");
+                        }
+                        "cpark" | "cdrop" => {
+                            let _g = if fate == "cdrop" { Some(BlockingDrop) } else { None };
+                            let b = may::sync::Blocker::current();
+                            r.stage.store(1, SeqCst);
+                            let x = b.park(None);
+                            c.fail(format!("{who}: cancelled park returned {x:?} instead of unwinding"));
+                        }
+                        "race" => {
+                            let b = may::sync::Blocker::current();
+                            r.t_park.store(c.now(), SeqCst);
+                            r.stage.store(1, SeqCst);
+                            let _ = b.park(Some(Duration::from_millis(1)));
+                            // whichever of the timer and the cancel was first: go on blocking
+                            may::coroutine::sleep(Duration::from_micros(100));
+                            may::coroutine::yield_now();
+                        }
+                        "cshort" => {
+                            r.stage.store(1, SeqCst);
+                            spin_until(&r, 2);
+                            match sub % 4 {
+                                0 => may::coroutine::sleep(Duration::from_millis(1)),
+                                1 => may::coroutine::yield_now(),
+                                2 => {
+                                    let _ = may::sync::Blocker::current().park(Some(Duration::from_millis(1)));
+                                }
+                                _ => {
+                                    let _ = rx_a.recv();
+                                }
+                            }
+                            c.fail(format!("{who}: a blocking call of a cancelled coroutine returned"));
+                        }
+                        "waitio" => {
+                            // eat the initial writable edge, then get cancelled while running
+                            let _ = sb.wait_io();
+                            r.stage.store(1, SeqCst);
+                            spin_until(&r, 2);
+                            let _ = sb.wait_io();
+                            check_locals_kept(a, &who);
+                        }
+                        "cwaitio" => {
+                            let _ = sb.wait_io();
+                            r.stage.store(1, SeqCst);
+                            let _ = sb.wait_io();
+                            check_locals_kept(a, &who);
+                        }
+                        "iotmo" => {
+                            sb.set_read_timeout(Some(Duration::from_millis(1))).unwrap();
+                            let mut buf = [0u8; 8];
+                            match sb.recv(&mut buf) {
+                                Err(e) if e.kind() == std::io::ErrorKind::TimedOut => {}
+                                x => c.fail(format!("{who}: read with a 1 ms timeout and no data returned {x:?}")),
+                            }
+                        }
+                        "cio" => {
+                            sb.set_read_timeout(Some(Duration::from_secs(10))).unwrap();
+                            let mut buf = [0u8; 8];
+                            r.stage.store(1, SeqCst);
+                            let x = sb.recv(&mut buf);
+                            c.fail(format!("{who}: cancelled read returned {x:?} instead of unwinding"));
+                        }
+                        _ => unreachable!(),
+                    }
+                })
+            };
+            // main: deliver the cancel the fate asks for
+            let exp = match fate {
+                "fin" | "tmo" | "iotmo" => Exp::Ok,
+                "panic" => Exp::Panic,
+                "cpark" | "cdrop" | "cio" => {
+                    while r.stage.load(SeqCst) != 1 {
+                        ctx.yield_now();
+                    }
+                    ctx.sleep_ns([0u64, 300_000][(sub >> 4 & 1) as usize]);
+                    for _ in 0..(sub >> 8) % 30 {
+                        ctx.point();
+                    }
+                    unsafe { ha.coroutine().cancel() };
+                    Exp::Cancel
                 }
-                let r = sock.wait_io();
-                println!("A wait_io returned {r}");
-            })
-        };
-        while flag.load(SeqCst) != 1 {
-            ctx.yield_now();
+                "race" => {
+                    while r.stage.load(SeqCst) != 1 {
+                        ctx.yield_now();
+                    }
+                    let due = r.t_park.load(SeqCst) + 1_000_000;
+                    let now = ctx.now();
+                    if due > now {
+                        ctx.sleep_ns(due - now);
+                    }
+                    unsafe { ha.coroutine().cancel() };
+                    Exp::Any
+                }
+                "cshort" | "waitio" => {
+                    while r.stage.load(SeqCst) != 1 {
+                        ctx.yield_now();
+                    }
+                    unsafe { ha.coroutine().cancel() };
+                    r.stage.store(2, SeqCst);
+                    if fate == "waitio" { Exp::Ok } else { Exp::Cancel }
+                }
+                "cwaitio" => {
+                    while r.stage.load(SeqCst) != 1 {
+                        ctx.yield_now();
+                    }
+                    ctx.sleep_ns(300_000);
+                    unsafe { ha.coroutine().cancel() };
+                    Exp::Ok
+                }
+                _ => unreachable!(),
+            };
+            let res = ha.join();
+            let got = match &res {
+                Ok(()) => Exp::Ok,
+                Err(e) => {
+                    if e.downcast_ref::<&str>().map(|s| *s == "boom").unwrap_or(false) {
+                        Exp::Panic
+                    } else if e.downcast_ref::<&str>().is_some() || e.downcast_ref::<String>().is_some() {
+                        ctx.fail(format!("previous occupant {a} ({fate}) ended with an unexpected panic"));
+                        Exp::Any
+                    } else {
+                        Exp::Cancel
+                    }
+                }
+            };
+            if exp != Exp::Any && got != Exp::Any && exp != got {
+                ctx.fail(format!("previous occupant {a} ({fate}) ended as {got:?}, expected {exp:?}"));
+            }
+            wait_dropped(a, &format!("previous occupant {a} ({fate})"));
+            let st_a = r.stack.load(SeqCst);
+            if last_stack != 0 && st_a.abs_diff(last_stack) < 0x10000 {
+                reuse += 1;
+            }
+
+            // ---------------------------------------------------------------- new occupant B
+            let b = owner;
+            owner += 1;
+            let rb = Arc::new(Round { stage: AtomicUsize::new(0), t_park: AtomicU64::new(0), stack: AtomicUsize::new(0), blocker: Mutex::new(None) });
+            let rb2 = rb.clone();
+            let (tx, rx) = may::sync::mpsc::channel::<u32>();
+            let sem = Arc::new(may::sync::Semphore::new(0));
+            let sem2 = sem.clone();
+            let ua = may::net::UdpSocket::bind("127.0.0.1:0").expect("bind");
+            let ub = may::net::UdpSocket::bind("127.0.0.1:0").expect("bind");
+            ua.connect(ub.local_addr().unwrap()).unwrap();
+            ub.connect(ua.local_addr().unwrap()).unwrap();
+            ALIVE[b].store(1, SeqCst);
+            let hb = unsafe {
+                may::coroutine::spawn(move || {
+                    let r = rb2;
+                    let _alive = AliveGuard(b);
+                    note_stack(&r);
+                    let who = format!("new occupant {b} (after {fate}, first call {fst})");
+                    touch_locals(b, &who);
+                    let c = mayv::ctx();
+                    let t0 = c.now();
+                    let mut min = 1_000_000;
+                    let verdict: Result<(), String> = match fst {
+                        "park" => {
+                            let blk = may::sync::Blocker::current();
+                            *r.blocker.lock().unwrap() = Some(blk.clone());
+                            r.stage.store(10, SeqCst);
+                            blk.park(Some(Duration::from_secs(10))).map_err(|e| format!("{e:?}"))
+                        }
+                        "sleep" => {
+                            min = 2_000_000;
+                            may::coroutine::sleep(Duration::from_millis(2));
+                            Ok(())
+                        }
+                        "recv" => {
+                            r.stage.store(10, SeqCst);
+                            rx.recv().map(|_| ()).map_err(|e| format!("{e:?}"))
+                        }
+                        "recvt" => {
+                            r.stage.store(10, SeqCst);
+                            rx.recv_timeout(Duration::from_secs(10)).map(|_| ()).map_err(|e| format!("{e:?}"))
+                        }
+                        "sem" => {
+                            r.stage.store(10, SeqCst);
+                            if sem2.wait_timeout(Duration::from_secs(10)) {
+                                Ok(())
+                            } else {
+                                Err("Timeout".into())
+                            }
+                        }
+                        "io" => {
+                            ub.set_read_timeout(Some(Duration::from_secs(10))).unwrap();
+                            let mut buf = [0u8; 8];
+                            r.stage.store(10, SeqCst);
+                            match ub.recv(&mut buf) {
+                                Ok(3) => Ok(()),
+                                x => Err(format!("{x:?}")),
+                            }
+                        }
+                        _ => unreachable!(),
+                    };
+                    let dt = c.now() - t0;
+                    match verdict {
+                        Err(e) => c.fail(format!("{who}: spurious result {e} after {dt} ns: inherited from the previous occupant of the stack")),
+                        Ok(()) if dt < min => c.fail(format!("{who}: returned after {dt} ns, before the event it waits for")),
+                        Ok(()) => {}
+                    }
+                    check_locals_kept(b, &who);
+                    may::coroutine::yield_now();
+                    check_locals_kept(b, &who);
+                })
+            };
+            // the event B waits for comes 1 ms after B started to wait
+            if fst != "sleep" {
+                while rb.stage.load(SeqCst) != 10 {
+                    ctx.yield_now();
+                }
+                ctx.sleep_ns(1_000_000);
+                match fst {
+                    "park" => rb.blocker.lock().unwrap().take().unwrap().unpark(),
+                    "recv" | "recvt" => tx.send(1).unwrap(),
+                    "sem" => sem.post(),
+                    _ => {
+                        ua.send(b"abc").unwrap();
+                    }
+                }
+            }
+            match hb.join() {
+                Ok(()) => {}
+                Err(e) => {
+                    let what = e.downcast_ref::<&str>().map(|s| s.to_string()).or_else(|| e.downcast_ref::<String>().cloned()).unwrap_or_else(|| "Cancel".into());
+                    ctx.fail(format!("new occupant {b} (after {fate}, first call {fst}) did not end normally: {what} (nobody cancelled it)"));
+                }
+            }
+            wait_dropped(b, &format!("new occupant {b}"));
+            let st_b = rb.stack.load(SeqCst);
+            if st_a.abs_diff(st_b) < 0x10000 {
+                reuse += 1;
+            }
+            last_stack = st_b;
+            // the thread fallback is somebody else's business
+            check_locals_kept(MAIN, "main thread");
+            let _ = round;
         }
-        unsafe { a.coroutine().cancel() };
-        flag.store(2, SeqCst);
-        println!("A join: {:?}", a.join().is_ok());
-        let b = unsafe {
-            may::coroutine::spawn(move || {
-                let x = 0u8;
-                println!("B stack {:p}", &x);
-                let blk = may::sync::Blocker::current();
-                let b2 = blk.clone();
-                let th = mayv::ctx().spawn("unparker", move || {
-                    mayv::ctx().sleep_ns(1_000_000);
-                    b2.unpark();
-                });
-                let r = blk.park(Some(Duration::from_secs(10)));
-                println!("B park result {:?}", r);
-                mayv::ctx().join(th);
-            })
-        };
-        println!("B join: {:?}", b.join().is_ok());
+        if reuse == 0 {
+            ctx.fail("no stack was reused in this run: the scenario did not exercise the pool".into());
+        }
+        for o in 0..owner {
+            for k in 0..NK {
+                let (i, d) = (INITS[o][k].load(SeqCst), DROPS[o][k].load(SeqCst));
+                if i != 1 || d != 1 {
+                    ctx.fail(format!("owner {o} key {k}: created {i} dropped {d} at the end of the run"));
+                }
+            }
+        }
+        for k in 0..NK {
+            if DROPS[MAIN][k].load(SeqCst) != 0 || INITS[MAIN][k].load(SeqCst) != 1 {
+                ctx.fail("the main thread's fallback values were re-created or dropped".into());
+            }
+        }
+        println!("STATS stack_reuse={reuse} coroutines={owner}");
     })
 }
